@@ -198,7 +198,9 @@ func (c *diskClient) apply(ops ...*storage.Operation) error {
 		switch op.Type {
 		case storage.Get:
 			if v, ok := m[op.Key]; ok {
-				op.Value = append([]byte(nil), v...)
+				// a key that is present reads back non-nil also when its value is empty (nil means "not found", as
+				// with the bbolt-backed file storage)
+				op.Value = append([]byte{}, v...)
 			} else {
 				op.Value = nil
 			}
